@@ -138,7 +138,9 @@ class AppSocket:
 
     def sim_readable(self):
         """what select() sees: raw bytes / eof / error waiting (not the decrypted buffer)."""
-        return self.closed or self.eof or self._arrived()
+        # (a CLOSED descriptor is silently dropped from the OS poll set — epoll, which `selectors.DefaultSelector` is on Linux —:
+        #  a select() on it reports nothing, ever; only its timeout ends the wait)
+        return (not self.closed) and (self.eof or self._arrived())
 
     def sim_next_time(self):
         return self.inq[0][0] if self.inq else None
